@@ -205,13 +205,57 @@ class Built:
     pass
 
 
+SRC_ATTR_VALUES = ["vendor/prims/blk_v2.v:317", "", "x", "a.v:1|b.v:2", 'q"uote.v:3', "back\\slash.v:4", 317, 0, -1, 1 << 40]
+
+
+def io_cat_value(rng, pins, other, shape):
+    """an IOValue over the I/O port `pins` (width >= 2) made of slices of it; returns (value, shape-name).
+    `split`/`swap`/`bits`/`two_ports` use every bit at most once; `overlap`/`twice`/`bit_twice` repeat a bit
+    *inside the one value* (the off-by-one of a bus split: `Cat(pins[0:2], pins[1:3])`)"""
+    w = len(pins)
+    k = rng.randint(1, w - 1)
+    if shape == "split":
+        return Cat(pins[0:k], pins[k:w])
+    if shape == "swap":
+        return Cat(pins[k:w], pins[0:k])
+    if shape == "bits":
+        idx = list(range(w))
+        rng.shuffle(idx)
+        return Cat(*(pins[i] for i in idx))
+    if shape == "two_ports":
+        return Cat(pins[0:k], other, pins[k:w])
+    if shape == "part":                         # a proper part of the port, the rest stays unused
+        return Cat(pins[0:k]) if rng.random() < 0.5 else pins[k:w]
+    if shape == "overlap":                      # bit k-1 (or k) occurs in both slices
+        return Cat(pins[0:k], pins[k - 1:w]) if rng.random() < 0.5 else Cat(pins[k - 1:w], pins[0:k])
+    if shape == "twice":
+        return Cat(pins, pins[0:k])
+    if shape == "bit_twice":
+        i = rng.randrange(w)
+        return Cat(pins[i], pins[i])
+    raise ValueError(shape)
+
+
+IO_CAT_CLEAN = ["split", "split", "swap", "bits", "two_ports", "part"]
+IO_CAT_DUP = ["overlap", "overlap", "twice", "bit_twice"]
+
+
 def gen_design(rng, hist, *, instances=True, memories=True, iobufs=True, layouts=True, odd=None, allow_f9=False, allow_f25=False, zero_io=False,
-               async_reset=True, max_depth=4, all_ports=False, drop=frozenset(), dup_tf=False):
-    """returns a `Built`: .top .ports .foreign (expected-instance S-expressions) .inputs .domains .pool ..."""
+               async_reset=True, max_depth=4, all_ports=False, drop=frozenset(), dup_tf=False, io_cat=False, src_attrs=False):
+    """returns a `Built`: .top .ports .foreign (expected-instance S-expressions) .inputs .domains .pool ...
+
+    `io_cat` and `src_attrs` are off by default and then draw nothing from `rng` (the streams of the other
+    checks that use this generator are unchanged).  `io_cat`: extra I/O buffers and instances whose I/O value
+    is a concatenation of slices of one (or two) `IOPort`s, a tenth of them with a bit repeated (inside one
+    value, or in two separate uses): `.io_dup` tells whether some I/O port bit is used twice anywhere in the
+    design (amaranth must refuse exactly those).  `src_attrs`: some instances get an attribute literally
+    named `src` (expected among the attributes like any other)."""
     def note(k, n=1):
         hist[k] = hist.get(k, 0) + n
 
     b = Built()
+    b.io_dup = False
+    b.io_dup_kinds = []
     # -- module tree -----------------------------------------------------------------------------
     n_mod = rng.choice([1, 2, 2, 3, 3, 4, 5, 6, 8])
     parent, depth = [None], [0]
@@ -439,11 +483,24 @@ def gen_design(rng, hist, *, instances=True, memories=True, iobufs=True, layouts
                 args.append(("p", f"P{k}", v))
                 kind, c = expected_const(v)
                 params.append(f'({kind} "\\\\P{k}" {c})')
+            def add_src():
+                # an attribute literally named `src` (the name of the generated source-location attribute)
+                v = rng.choice(SRC_ATTR_VALUES) if rng.random() < 0.8 else rand_param(rng, allow_float=False)
+                args.append(("a", "src", v))
+                _kind, c = expected_const(v)
+                attrs.append(f'("\\\\src" {c})')
+                note("instance_attr_src")
+                note("instance_attr_src_" + type(v).__name__)
+            src_at = rng.choice(["first", "last", None, None, None]) if src_attrs else None
+            if src_at == "first":
+                add_src()
             for k in range(rng.randint(0, 2)):
                 v = rand_param(rng, allow_float=False)
                 args.append(("a", f"at{k}", v))
                 _kind, c = expected_const(v)
                 attrs.append(f'("\\\\at{k}" {c})')
+            if src_at == "last":
+                add_src()
             for k in range(rng.randint(0, 3)):
                 e = g_comb.expr(rng.randint(0, 2))
                 args.append(("i", f"i{k}", e))
@@ -492,6 +549,74 @@ def gen_design(rng, hist, *, instances=True, memories=True, iobufs=True, layouts
             else:
                 m.submodules += IOBufferInstance(io, o=e, oe=g_comb.expr(1).bool())
                 note("iobuf_o_oe")
+
+        # I/O values that are concatenations of slices of a port (optional, see `io_cat`)
+        if io_cat and (iobufs or instances) and rng.random() < 0.25:
+            fit = lambda e, n: Cat(e, Const(0, n))[:n]
+            dup = rng.choice(IO_CAT_DUP + ["two_uses"]) if rng.random() < 0.15 else None
+            if dup in IO_CAT_DUP:
+                shape = dup
+            elif dup == "two_uses":
+                shape = rng.choice(["split", "swap", "bits"])        # every bit of the port is used once already
+            else:
+                shape = rng.choice(IO_CAT_CLEAN)
+            pins = IOPort(rng.randint(2, 4), name=rng.choice(["pins", "pad", "io", "a"]))
+            ioports.append(pins)
+            other = None
+            if shape == "two_ports":
+                other = IOPort(rng.randint(1, 2), name=rng.choice(["pins", "pad", "b"]))
+                ioports.append(other)
+            val = io_cat_value(rng, pins, other, shape)
+            n = len(val)
+            kinds = (["buf_o", "buf_o", "buf_o_oe", "buf_i", "buf_io"] if iobufs else []) + \
+                    (["inst_o", "inst_o", "inst_io", "inst_i"] if instances else [])
+            kind = rng.choice(kinds)
+            if kind in ("buf_i", "buf_io"):
+                tgt = Signal(n, name=rng.choice(NAMES))
+                # the buffer's input depends combinationally on its output enable: readable from the next rank on
+                extra_by_rank[min(rank + 1, len(order))].append(tgt)
+            if kind == "buf_o":
+                m.submodules += IOBufferInstance(val, o=fit(g_comb.expr(2), n))
+            elif kind == "buf_o_oe":
+                m.submodules += IOBufferInstance(val, o=fit(g_comb.expr(2), n), oe=g_comb.expr(1).bool())
+            elif kind == "buf_i":
+                m.submodules += IOBufferInstance(val, i=tgt)
+            elif kind == "buf_io":
+                m.submodules += IOBufferInstance(val, i=tgt, o=fit(g_comb.expr(1), n), oe=g_comb.expr(1).bool())
+            else:
+                n_inst += 1
+                ty = f"ext{n_inst}_{rng.randint(0, 99)}"
+                d = kind[5:]
+                e = fit(g_comb.expr(1), n)
+                inst = Instance(ty, ("i", "D", e), (d, "pad", val))
+                nm = rng.choice(SUBNAMES + [None])
+                if nm is None:
+                    m.submodules += inst
+                else:
+                    try:
+                        m.submodules[nm] = inst
+                    except Exception:
+                        m.submodules += inst
+                b.foreign.append(f'(inst "\\\\{ty}" (params ) (attrs ) (ports ("\\\\D" i {n} -) ("\\\\pad" {d} {n} -)))')
+                note("instance")
+            if dup == "two_uses":
+                j = rng.randrange(len(pins))
+                if rng.random() < 0.5 or not iobufs:
+                    m.submodules += IOBufferInstance(pins[j], o=fit(g_comb.expr(1), 1))
+                else:
+                    t2 = Signal(1, name=rng.choice(NAMES))
+                    m.submodules += IOBufferInstance(pins[j], i=t2)
+            note("io_cat")
+            note("io_cat_kind=" + kind)
+            note("io_cat_shape=" + shape)
+            note("io_cat_width=" + str(n))
+            if dup:
+                b.io_dup = True
+                b.io_dup_kinds.append(f"{kind}:{dup}")
+                note("io_cat_dup=" + dup)
+                note("io_cat_dup_kind=" + kind)
+            else:
+                note("io_cat_clean")
 
     # fix up `o`-length mismatches are impossible by construction; attach the tree
     for i in range(1, n_mod):
